@@ -43,47 +43,60 @@ pub fn map_oracle(v: &mut Visit) -> Vec<(String, String)> {
 
 pub fn run(tier: &str) -> i32 {
     let rep = Report::new("C04", tier, "model_checking");
-    let alpha = Alphabet::new(rep.thorough());
-    rep.rule(&format!(
-        "explicit-state BFS to fix-point over histories of add(id,c) x{} / remove(id) x{} / save+reopen(sync|async reader) from {} initial states (fresh sync/async per internal compression, three foreign archives x both readers); ids {:?} (adjacent: runs merge and split), contents {:?}; every transition executed twice (with and without lookups interleaved between operations); oracle in every state: lookups by id and by coordinates, sorted listing, count against a BTreeMap; non-trivial = states with >=1 tile; distinct = canonical states (hook snapshot + backing digest + flavour)",
-        alpha.ids.len() * alpha.contents.len(), alpha.ids.len(), alpha.inits.len(), alpha.ids, alpha.contents.iter().map(|c| String::from_utf8_lossy(c).to_string()).collect::<Vec<_>>()
-    ));
+    let thorough = rep.thorough();
+    rep.rule("explicit-state BFS over histories of add(id,c) / remove(id) / save+reopen(sync|async reader), one search per alphabet variant (see 'searches'): variant 0 = unrelated contents AA, BB(, A); variant 1 = related contents A, A+NUL(, NUL) - proper prefix and suffix, concatenation of two others, trailing zero byte; both to fix-point from all initial states (fresh sync/async per internal compression, three foreign archives over the same contents x both readers, four range-filtered opens); quick only: variant 2 = the three related contents over ids 0,1,2,5 from two fresh objects, all histories of at most 5 operations; every transition executed twice (with and without lookups interleaved between operations); oracle in every state: lookups by id and by coordinates, sorted listing, count against a BTreeMap; non-trivial = states with >=1 tile; distinct = canonical states (hook snapshot + backing digest + flavour)");
     rep.assume("state merging: two objects with equal hook snapshots, equal backing bytes and equal API flavour differ only in hash-map iteration order, which no transition or observation used here depends on (tile_ids() is compared sorted); byte-level dependence on iteration order is C16's subject");
     rep.assume("alphabets beyond the stated ids/contents and random long sequences are not explored");
-    let (stats, complete, samples) = explore(
-        &alpha,
-        &map_oracle,
-        &|k, d, c| rep.violation(k, d, c),
-        if rep.thorough() { 3_000_000 } else { 400_000 },
-    );
-    // second, independent exploration order: transitions reversed, frontiers expanded back to front. The set of
-    // canonical states reached must be identical (a cross-check of the explorer itself, and of state merging)
-    let (stats2, complete2, _) = explore_ordered(&alpha, &map_oracle, &|k, d, c| rep.violation(k, d, c), if rep.thorough() { 3_000_000 } else { 400_000 }, true);
-    rep.set("second_exploration", json!({"order":"reversed transitions, reversed frontiers","states":stats2.states,"transitions":stats2.transitions,"same_state_set":stats2.state_set_digest == stats.state_set_digest && stats2.states == stats.states}));
-    if complete && complete2 && (stats2.states != stats.states || stats2.state_set_digest != stats.state_set_digest) {
-        println!("MACHINERY: two exploration orders reached different state sets ({} vs {} states) - the explorer or the state key is unsound", stats.states, stats2.states);
-        return 2;
+    let cap = if thorough { 3_000_000 } else { 400_000 };
+    let variants: &[u8] = if thorough { &[0, 1] } else { &[0, 1, 2] };
+    let mut searches = Vec::new();
+    let (mut states, mut transitions, mut merged, mut max_depth, mut obs) = (0u64, 0u64, 0u64, 0usize, 0u64);
+    let mut all_complete = true;
+    for variant in variants {
+        let alpha = Alphabet::variant(thorough, *variant);
+        let (stats, complete, samples) = explore(&alpha, &map_oracle, &|k, d, c| rep.violation(k, d, c), cap);
+        // second, independent exploration order: transitions reversed, frontiers expanded back to front. The set of
+        // canonical states reached must be identical (a cross-check of the explorer itself, and of state merging)
+        let (stats2, complete2, _) = explore_ordered(&alpha, &map_oracle, &|k, d, c| rep.violation(k, d, c), cap, true);
+        if complete && complete2 && (stats2.states != stats.states || stats2.state_set_digest != stats.state_set_digest) {
+            println!("MACHINERY: two exploration orders reached different state sets ({} vs {} states, variant {variant}) - the explorer or the state key is unsound", stats.states, stats2.states);
+            return 2;
+        }
+        searches.push(json!({
+            "variant": variant, "ids": alpha.ids, "contents_hex": alpha.contents_desc(), "initial_states": alpha.inits.len(),
+            "depth_bound": alpha.max_depth, "fixpoint_reached": complete && alpha.max_depth.is_none(),
+            "states": stats.states, "transitions": stats.transitions, "max_depth": stats.max_depth,
+            "transitions_into_known_states": stats.merged, "distinct_observation_vectors": stats.distinct_observations,
+            "second_exploration": {"order":"reversed transitions, reversed frontiers","states":stats2.states,"transitions":stats2.transitions,"same_state_set":stats2.state_set_digest == stats.state_set_digest && stats2.states == stats.states},
+        }));
+        rep.eval(stats.transitions * 2 + stats2.transitions * 2);
+        rep.nontrivial(stats.states.saturating_sub(alpha.inits.len() as u64));
+        states += stats.states;
+        transitions += stats.transitions;
+        merged += stats.merged;
+        max_depth = max_depth.max(stats.max_depth);
+        obs += stats.distinct_observations;
+        all_complete &= complete && complete2;
+        for s in samples.into_iter().take(3) {
+            rep.force_sample(s);
+        }
     }
-    rep.eval(stats.transitions * 2 + stats2.transitions * 2);
-    rep.nontrivial(stats.states.saturating_sub(alpha.inits.len() as u64));
-    rep.set("states", json!(stats.states));
-    rep.set("transitions", json!(stats.transitions));
-    rep.set("traces_validated_against_impl", json!(stats.transitions * 2));
-    rep.set("max_depth", json!(stats.max_depth));
-    rep.set("transitions_into_known_states", json!(stats.merged));
-    rep.set("distinct_observation_vectors", json!(stats.distinct_observations));
-    rep.set("fixpoint_reached", json!(complete));
-    if !complete {
+    rep.set("searches", json!(searches));
+    rep.set("states", json!(states));
+    rep.set("transitions", json!(transitions));
+    rep.set("traces_validated_against_impl", json!(transitions * 2));
+    rep.set("max_depth", json!(max_depth));
+    rep.set("transitions_into_known_states", json!(merged));
+    rep.set("distinct_observation_vectors", json!(obs));
+    rep.set("fixpoint_reached", json!(all_complete));
+    if !all_complete {
         rep.not_exhaustive("state cap reached before the fix-point");
-    }
-    for s in samples {
-        rep.force_sample(s);
     }
     rep.finish()
 }
 
 pub fn replay_with(case: &Value, check: &dyn Fn(&mut Visit) -> Vec<(String, String)>) -> Vec<String> {
-    let alpha = Alphabet::new(case["thorough"].as_bool().unwrap_or(false));
+    let alpha = Alphabet::from_case(case);
     let (init, ops) = hist_from_case(case);
     let mut out = Vec::new();
     for lookups in [false, true] {
